@@ -186,12 +186,17 @@ def run_direct(shard, ctx):
         check_stream(ctx, data, scs, bs, rng.choice([1, 7, 60, 60, 61]), scratch)
 
 
-def check_cli_case(cr, ctx):
+def check_cli_case(cr, ctx, optimised=False):
     """pretext-to-asm, FASTA in / FASTA out; each (.fa, .agp) pair against the input FASTA."""
     from vf import cli_runs
 
     ctx.case()
-    res = cli_runs.run_pretext_to_asm(cr, out_name="out.2.fa")
+    if optimised:
+        # the same run in a fresh interpreter with assertions compiled away (python -O / PYTHONOPTIMIZE)
+        res = cli_runs.run_pretext_to_asm(cr, out_name="out.2.fa", inproc=False, env_extra={"PYTHONOPTIMIZE": "1"})
+        ctx.count("cli:runs-under-python-O")
+    else:
+        res = cli_runs.run_pretext_to_asm(cr, out_name="out.2.fa")
     if res["exit_code"] != 0:
         ctx.count(f"cli:exit-{res['exit_code']}")
         return
@@ -275,6 +280,9 @@ def run_cli(shard, ctx):
                 cli_runs.clear_outputs(cr)
                 ctx.count("cli:rerun-after-symlink-repointed")
                 check_cli_case(cr2, ctx)
+            if i % 6 == 2:
+                cli_runs.clear_outputs(cr)
+                check_cli_case(cr, ctx, optimised=True)
             if i % 3 == 0 and rewrite_input_fasta(cr, rng):
                 cli_runs.clear_outputs(cr)
                 ctx.count("cli:rerun-after-fasta-rewritten-with-cache-mtime")
@@ -320,6 +328,7 @@ def gates(c, tier):
         "monitor_evals:write_scaffold": 3000,
         "class:scaffold-without-rows": 100,
         "cli:pairs-ok": 20,
+        "cli:runs-under-python-O": 10,
         "cli:rerun-after-fasta-rewritten-with-cache-mtime": 10,
         "cli:rerun-after-symlink-repointed": 10,
     }
